@@ -19,6 +19,7 @@ EXPLANATION = (
     "combining class are appended to a cluster.  C19.TABLE: accent keys are category Mn, commands pairwise distinct "
     "and equal to the checker's reference table of LaTeX accents.  C19.USE: label texts and the preamble pass through "
     "uni2tex exactly once.  Canonical equivalence of the read-back for arbitrary strings is not decided."
+    '  The transducer model accepts string accumulation and list-append-then-join accumulation, a local or module-level accent table, `table.get(k)` and `try/except KeyError` look-ups; the loop must scan the text itself or its NFC/NFD form; leaves built from atoms the recogniser does not know are undecided, never a violation.'
 )
 ASSUMPTIONS = ["unicodedata of the analysing interpreter (same as the repository's)"]
 
